@@ -88,7 +88,8 @@ def verify_target(args):
             obls, probes = _pack(res["obligations"], res["probes"], prop)
             return {"target": name, "status": "ok", "obligations": obls, "probes": probes, "paths": res["paths"],
                     "n_all": len(res["obligations"]), "trivial": res["trivial"], "ghost_assumes": res["ghost_assumes"],
-                    "lemmas_used": sorted(eng.lemmas_used), "applied_contracts": res.get("applied_contracts", [])}
+                    "lemmas_used": sorted(eng.lemmas_used), "applied_contracts": res.get("applied_contracts", []),
+                    "stale_notes": res.get("stale_notes", [])}
         lem = next(l for l in reg.logic.lemmas if l.name == name)
         lobl, lprobes = verify_lemma(eng, lem)
         obls, probes = _pack(lobl, lprobes, None)
